@@ -1126,7 +1126,7 @@ class Mutator:
         self.insert(site, bad)
         return Mutant('call_arity', self.p, bad, 'callMismatch', site.path, x)
 
-    def call_kind(self, want_inner_fn=False):
+    def call_kind(self, want_inner_fn=False, flip_var=False):
         site = self.pick_site()
         if site is None:
             return None
@@ -1155,8 +1155,17 @@ class Mutator:
             pt = ptys[i][1]
             j = [j for j, (_, q) in enumerate(pt[1]) if isinstance(q, tuple) and q[0] == 'fn'][0]
             q = pt[1][j][1]
-            other = 'string' if q[3] != 'string' else 'int'
-            q2 = ('fn', q[1], q[2], other)
+            if flip_var:
+                # same result kind, but the mutability of one parameter of the INNER function type differs: `var`-ness of
+                # parameters is part of a function type at every depth
+                if not q[1]:
+                    return None
+                k = self.rng.below(len(q[1]))
+                flipped = 'v' if norm_v(q[1][k][0]) != 'v' else 'd'
+                q2 = ('fn', q[1][:k] + ((flipped, q[1][k][1]),) + q[1][k + 1:], q[2], q[3])
+            else:
+                other = 'string' if q[3] != 'string' else 'int'
+                q2 = ('fn', q[1], q[2], other)
             badty = ('fn', pt[1][:j] + ((pt[1][j][0], q2),) + pt[1][j + 1:], pt[2], pt[3])
             how = 'silent'
         else:
@@ -1182,6 +1191,12 @@ class Mutator:
         m = self.call_kind(want_inner_fn=True)
         if m is not None:
             m.rule = 'call_kind_inner_fn'
+        return m
+
+    def call_kind_inner_var(self):
+        m = self.call_kind(want_inner_fn=True, flip_var=True)
+        if m is not None:
+            m.rule = 'call_kind_inner_var'
         return m
 
     # -- names
